@@ -15,6 +15,7 @@ import (
 	"encoding/hex"
 	"fmt"
 	"io"
+	"net"
 	"net/http"
 	"path/filepath"
 	"sort"
@@ -625,6 +626,16 @@ func (rn *runner) worker(cases <-chan *Case, wg *sync.WaitGroup) {
 		}
 		for _, v := range variants {
 			G := k.Do("GET", cs.request(v.host()))
+			if G.Err != nil && G.Header == nil {
+				// not a single response byte: the server may have closed the
+				// idle keep-alive connection; once more on a fresh one
+				c.Count("twin_retries", 1)
+				G = k.Do("GET", cs.request(v.host()))
+			}
+			if ne, ok := G.Err.(net.Error); ok && ne.Timeout() {
+				c.Inconclusive(fmt.Sprintf("case %d twin %s: exchange timed out (loaded machine?)", cs.ID, v.Name))
+				continue
+			}
 			c.Eval(1)
 			vd := judge(c, cs, v, P, G, true)
 			if vd != nil {
@@ -740,5 +751,6 @@ func run(c *lib.Ctx) {
 	c.Assume("bodyless responses (204, 304) carry no coded bytes; a Content-Encoding header on them is not judged")
 	c.Assume("`Accept-Encoding: *` and `x-gzip` count as offering gzip (either behaviour accepted); `gzip;q=0` counts as NOT offering gzip (RFC 7231 5.3.4: weight 0 = not acceptable) and is reported under its own key C18/gzip-q0")
 	c.Assume("Content-Type, Vary and ETag weakening are not judged (the statement is silent on them)")
+	c.Assume("casket adds an implicit `errors` directive to every site that has gzip (httpserver/plugin.go, issue #616), so returned error statuses are rendered inside the gzip writer on the twin sites; only the decoded result is compared")
 	c.Assume("HTTP/1.1 over loopback only; HEAD requests and handlers that break the casket handler contract (write a body and also return a status >= 400) are not generated")
 }
